@@ -74,7 +74,7 @@ def leg_t(mod):
     if not ok:
         # make -k builds everything that does not depend on the failing file: the failure concerns this property only when one of
         # the modules it needs (its Properties file, the evaluation helpers of the correspondence leg) could not be rebuilt
-        needed = [m.replace(".", "/") + ".vo" for m in mod.THEOREMS] + ["Eval/FA.vo", "Eval/CFG.vo", "Eval/IG.vo"]
+        needed = [m.replace(".", "/") + ".vo" for m in mod.THEOREMS] + ["Eval/FA.vo", "Eval/CFG.vo", "Eval/IG.vo", "Eval/Labels.vo"]
         stale = [v for v in needed if os.path.exists(os.path.join(common.COQ, v[:-1]))
                  and (subprocess.run(["make", "-q", v], cwd=common.COQ, capture_output=True).returncode != 0 or not common.vo_fresh(v[:-1]))]
         if stale:
